@@ -250,7 +250,7 @@ class PathEngine:
         self._idp: tuple = ()  # id prefix while enumerating an inlined callee
         self._frames: tuple = ()
         self.inline: Callable[[FuncInfo], bool] | None = default_inline()
-        self.max_inline_depth = 3
+        self.max_inline_depth = 4
 
     def _nid(self, node: Node) -> Any:
         return node.id if not self._idp else self._idp + (node.id,)
@@ -352,6 +352,9 @@ class PathEngine:
                     known = {ln.strip() for ln in fh if ln.strip()}
             except OSError:
                 known = set(self.prog.classes)
+            # a known class moved to another module is still that class (name unique among the known ones)
+            tails = [k.split(":", 1)[-1] for k in known]
+            known |= {q for q in self.prog.classes if q not in known and tails.count(q.split(":", 1)[-1]) == 1 and not any(k != q and k in self.prog.classes and k.split(":", 1)[-1] == q.split(":", 1)[-1] for k in known)}
             self.__dict__["_known_classes"] = known
         if qual in known:
             return None
@@ -364,10 +367,44 @@ class PathEngine:
             return None  # a mixin / base class with annotated attributes is not a record
         return ci
 
+    def _holder_fields(self, ci: Any) -> dict[str, str] | None:
+        """field -> constructor parameter, for a class that did not exist when the rules were written and whose
+        `__init__` does nothing but `self.<field> = <parameter>` (an object made to carry values into its methods,
+        e.g. a hand-written context manager): its constructor term is then a record of those fields"""
+        cache = self.__dict__.setdefault("_holders", {})
+        if ci.qual in cache:
+            return cache[ci.qual]
+        cache[ci.qual] = None
+        self._new_record_class(None)  # loads the known-class list
+        init = ci.methods.get("__init__")
+        if init is None or ci.qual in (self.__dict__.get("_known_classes") or ()):
+            return None
+        params = init.positional_params()[1:] + [a.arg for a in init.node.args.kwonlyargs]
+        selfname = init.positional_params()[0]
+        out: dict[str, str] = {}
+        for st in init.node.body:
+            if isinstance(st, ast.Expr) and isinstance(st.value, ast.Constant):
+                continue  # docstring
+            tgt = val = None
+            if isinstance(st, ast.Assign) and len(st.targets) == 1:
+                tgt, val = st.targets[0], st.value
+            elif isinstance(st, ast.AnnAssign) and st.value is not None:
+                tgt, val = st.target, st.value
+            if not (isinstance(tgt, ast.Attribute) and isinstance(tgt.value, ast.Name) and tgt.value.id == selfname and isinstance(val, ast.Name) and val.id in params):
+                return None
+            out[tgt.attr] = val.id
+        if not out or init.node.args.vararg or init.node.args.kwarg:
+            return None
+        cache[ci.qual] = out
+        return out
+
     def _record_of_param(self, base: Any, cfg: CFG) -> Any:
         if not (isinstance(base, tuple) and len(base) == 2 and base[0] == "param" and isinstance(base[1], str)):
             return None
-        ty = self.prog.func_locals(cfg.func).get(base[1].lstrip("*"))
+        # a `param` term always denotes a parameter of the function whose paths are being enumerated (parameters of
+        # inlined helpers are replaced by the argument terms), whatever frame the expression is evaluated in
+        root = getattr(self, "_root_fi", None)
+        ty = self.prog.func_locals(root).get(base[1].lstrip("*")) if root is not None and base[1].lstrip("*") in root.param_names() else self.prog.func_locals(cfg.func).get(base[1].lstrip("*"))
         if not ty:
             return None
         cl = [a[1] for a in ty if a[0] == "cls"]
@@ -381,6 +418,8 @@ class PathEngine:
             cname = base[1][4:]
             cands = [q for q, c in self.prog.classes.items() if c.name == cname]
             ci = self._new_record_class(cands[0]) if len(cands) == 1 else None
+            if ci is None and len(cands) == 1 and isinstance(key, str) and self._holder_fields(self.prog.classes[cands[0]]) is not None:
+                return dict(base[3]).get(key)
             if ci is not None:
                 fields = self.prog.all_fields(ci)
                 vals: dict[str, Any] = {}
@@ -456,9 +495,25 @@ class PathEngine:
                 return ("tuple" if x.func.id == "tuple" else "set", inner[1])
             return None
 
+        def record(x: ast.expr) -> Any:
+            # `_STOP_X = _Stop(EventName.A, StopReason.B)`: a constant of a record class that did not exist when the
+            # rules were written (a row of a decision table written as data): its constructor term
+            if not (isinstance(x, ast.Call) and isinstance(x.func, ast.Name)):
+                return None
+            k2, p2 = self.prog.lookup_name(x.func.id, None, m)
+            if k2 != "class" or self._new_record_class(p2.qual) is None:
+                return None
+            args = [scalar(a) for a in x.args]
+            kws = {kw.arg: scalar(kw.value) for kw in x.keywords if kw.arg is not None}
+            if any(a is None for a in args) or any(v is None for v in kws.values()) or len(kws) != len(x.keywords):
+                return None
+            return ("pure", "new " + p2.name, tuple(args), tuple(sorted(kws.items())))
+
         out = scalar(val)
         if out is None:
             out = coll(val)
+        if out is None:
+            out = record(val)
         cache[ck] = out
         return out
 
@@ -633,6 +688,8 @@ class PathEngine:
             return self._cache[ck]
         self._depth = _depth
         self._raises = raises
+        if _depth == 0:
+            self._root_fi = fi
         cfg = self.cfgs.get(fi)
         env: dict = {}
         for p in fi.param_names():
@@ -737,6 +794,8 @@ class PathEngine:
                 c = self.sym(node.info["cond"], env, store, cfg)
                 atom, pol = literal(c)
                 cv = const_truth(atom)
+                if cv is None:
+                    cv = self._exc_truth(atom)
                 for br, lab in ((True, "T"), (False, "F")):
                     if not br and node.info.get("assert"):
                         continue
@@ -830,6 +889,30 @@ class PathEngine:
             self._cache[ck] = out
         return out
 
+    def _exc_truth(self, atom: Any) -> bool | None:
+        """tests on the exception caught on this path (an `exc` term carries its kind): `e is None`, `isinstance(e, C)`
+        for classes that are kinds of the partition - what a hand-written `__exit__(self, t, e, tb)` does"""
+        if not isinstance(atom, tuple) or not atom:
+            return None
+        if atom[0] == "cmp" and atom[1] == "is" and atom[3] == ("const", None) and isinstance(atom[2], tuple) and atom[2] and atom[2][0] == "exc":
+            return False
+        if atom[0] == "pure" and atom[1] == "isinstance" and len(atom[2]) == 2 and isinstance(atom[2][0], tuple) and atom[2][0] and atom[2][0][0] == "exc":
+            kind = atom[2][0][1]
+            cl = atom[2][1]
+            terms = list(cl[1]) if isinstance(cl, tuple) and cl and cl[0] == "tuple" else [cl]
+            names = []
+            for t in terms:
+                if not (isinstance(t, tuple) and len(t) == 2 and t[0] == "global" and isinstance(t[1], str)):
+                    return None
+                nm = t[1].replace(":", ".").split(".")[-1]
+                if nm not in self.kinds.parent:
+                    return None
+                names.append(nm)
+            if kind not in self.kinds.parent:
+                return None
+            return any(self.kinds.is_sub(kind, c) for c in names)
+        return None
+
     def _literal_iter(self, node: Node, env: dict, store: dict, cfg: CFG, visit: int) -> Any:
         """elements of the iterated collection when it is a tuple / list display of tuple displays bound to a local
         of this function (at most 12 rows), else None"""
@@ -889,6 +972,21 @@ class PathEngine:
         recv = None
         if isinstance(f, ast.Attribute):
             recv = self.sym(f.value, env, store, cfg)
+        root = getattr(self, "_root_fi", None)
+        if len(targets) > 1 and isinstance(f, ast.Attribute) and root is not None and root.cls is not None and root.is_method and not root.is_staticmethod and all(t.kind == "repo" and t.func is not None and t.func.cls is not None for t in targets):
+            # a method called on the object the analysed method itself runs on (it travelled through an `Any`-typed
+            # field or parameter of an inlined helper): of the like-named candidates, the one of this class
+            ps = root.positional_params()
+            if ps and recv == ("param", ps[0]):
+                mine = self.prog.find_method(root.cls, f.attr)
+                own = [t for t in targets if t.func is mine]
+                if len(own) == 1:
+                    targets = own
+        role = env.get(("$cb", f.id)) if isinstance(f, ast.Name) else None
+        if role is not None and all(t.kind in ("callback", "unknown") for t in targets):
+            from .model import Target
+
+            targets = [Target("callback", category=role, via="argument of the inlined helper")]
         hof = env.get(("$fn", f.id)) if isinstance(f, ast.Name) else None
         if hof is not None and all(t.kind in ("callback", "unknown") for t in targets):
             # a parameter of an inlined helper that the caller bound to a function / bound method of the repository
@@ -899,7 +997,11 @@ class PathEngine:
                 targets, recv = t2, frecv
         args = []
         for a in call.args:
-            args.append(self.sym(a, env, store, cfg))
+            v = self.sym(a, env, store, cfg)
+            if isinstance(v, tuple) and v and v[0] == "star" and isinstance(v[1], tuple) and v[1] and v[1][0] == "tuple":
+                args.extend(v[1][1])  # `f(*t)` with t a known tuple (the *args of an inlined helper): spelled out
+            else:
+                args.append(v)
         kwargs = {}
         for kw in call.keywords:
             v = self.sym(kw.value, env, store, cfg)
@@ -930,6 +1032,23 @@ class PathEngine:
             pure, fname = True, "new " + (t0.cls.name if t0.cls else "?")
         elif all(t.kind == "ctor" for t in targets) and t0.cls is not None and t0.cls.name in self.kinds.parent:
             pure, fname = True, "new " + t0.cls.name
+        if not pure and len(targets) == 1 and t0.kind == "ctor" and t0.func is not None and t0.cls is not None and "**" not in kwargs and not any(isinstance(a, tuple) and a and a[0] == "star" for a in args):
+            hf = self._holder_fields(t0.cls)
+            if hf is not None:
+                pnames = t0.func.positional_params()[1:]
+                byparam = dict(kwargs)
+                for i, a in enumerate(args):
+                    if i < len(pnames):
+                        byparam.setdefault(pnames[i], a)
+                for pn, d in t0.func.param_defaults().items():
+                    if pn not in byparam:
+                        try:
+                            byparam[pn] = self.sym(d, {}, {}, self.cfgs.get(t0.func))
+                        except AnalysisError:
+                            pass
+                if all(pn in byparam for pn in hf.values()):
+                    pure, fname = True, "new " + t0.cls.name
+                    args, kwargs = [], {fld: byparam[pn] for fld, pn in hf.items()}
         if not pure and all(t.kind in ("lib", "unknown") for t in targets) and (t0.name or "").endswith("dataclasses.replace") and args and isinstance(args[0], tuple) and args[0][0] == "pure" and str(args[0][1]).startswith("new ") and "**" not in kwargs:
             # dataclasses.replace(<constructor term>, f=v, ...): the constructor term with those fields changed
             pure, fname = True, "dataclasses.replace"
@@ -948,6 +1067,18 @@ class PathEngine:
                         env3[g.generators[0].target.id] = el
                         parts.append(self.sym(g.elt, env3, store, cfg))
                     expanded = parts[0] if len(parts) == 1 else ("bool", "or" if fname == "any" else "and", tuple(parts))
+        if isinstance(f, ast.Attribute) and f.attr == "_asdict" and not call.args and not call.keywords and all(t.kind in ("lib", "unknown") for t in targets):
+            # NamedTuple._asdict() of a parameter object: the (shallow) dict of its fields
+            rc = None
+            if isinstance(recv, tuple) and recv and recv[0] == "pure" and isinstance(recv[1], str) and recv[1].startswith("new "):
+                cands = [q for q, c in self.prog.classes.items() if c.name == recv[1][4:]]
+                rc = self._new_record_class(cands[0]) if len(cands) == 1 else None
+            else:
+                rc = self._record_of_param(recv, cfg)
+            if rc is not None and any(ast.unparse(b).split(".")[-1] == "NamedTuple" for b in rc.node.bases):
+                vals = [(("const", fld), self._record_field(recv, fld, cfg)) for fld in self.prog.all_fields(rc)]
+                if all(v is not None for _k, v in vals):
+                    pure, fname, expanded = True, "._asdict", ("dict", tuple(vals))
         if pure:
             res = ("pure", fname, tuple(([recv] if fname and fname.startswith(".") else []) + args), tuple(sorted(kwargs.items())))
             if expanded is not None:
@@ -1053,6 +1184,11 @@ def _inline_impl(self, cfg, node, tg, call, recv, args, kwargs, env, store, item
     for k, v in kwargs.items():
         if k in names:
             cenv[k] = v
+    va, kwa = callee.node.args.vararg, callee.node.args.kwarg
+    if va is not None and not any(isinstance(a, tuple) and a and a[0] == "star" for a in args):
+        cenv[va.arg] = ("tuple", tuple(args[max(0, len(pos) - i0):]))
+    if kwa is not None and "**" not in kwargs:
+        cenv[kwa.arg] = ("dict", tuple((("const", k), v) for k, v in kwargs.items() if k not in names))
     # function-valued arguments: remember the caller's expression so that a call through the parameter resolves
     fn_args = [(pos[i0 + j], a) for j, a in enumerate(call.args) if i0 + j < len(pos) and not isinstance(a, ast.Starred)]
     fn_args += [(k.arg, k.value) for k in call.keywords if k.arg in names]
@@ -1061,9 +1197,16 @@ def _inline_impl(self, cfg, node, tg, call, recv, args, kwargs, env, store, item
             if isinstance(a, ast.Name) and ("$fn", a.id) in env:
                 cenv[("$fn", pname)] = env[("$fn", a.id)]
                 continue
+            if isinstance(a, ast.Name) and ("$cb", a.id) in env:
+                cenv[("$cb", pname)] = env[("$cb", a.id)]
+                continue
             try:
                 ft = self.prog.type_of(a, cfg.func)
             except AnalysisError:
+                continue
+            roles = {a[1] for a in ft if a[0] == "cb"}
+            if len(roles) == 1 and all(a[0] in ("cb", "none") for a in ft) and not str(next(iter(roles))).startswith("callable:"):
+                cenv[("$cb", pname)] = next(iter(roles))  # a user callable of one role handed to a shared helper
                 continue
             if len(ft) == 1 and next(iter(ft))[0] in ("func", "bound"):
                 try:
